@@ -86,6 +86,7 @@ def run(shard, ctx):
     rng = ctx.rng()
     import pyscsi.pyscsi.scsi_enum_command as E
 
+    held = []  # results of earlier decodes the caller still holds: (result object, its printed form when it was returned)
     for mode in modes(f, shard):
         v = f.gen(rng, mode)
         b = f.encode(v)
@@ -105,6 +106,16 @@ def run(shard, ctx):
                 ctx.fail("C04:%s.raises.%s" % (f.name, type(e).__name__), "%s: unmarshall_datain raised %s: %s" % (f.name, type(e).__name__, e), wit, exc=e)
                 continue
             judge(ctx, f, "direct", v, b, res, wit)
+            # what earlier decodes returned belongs to the caller: decoding another response must not change it
+            for old, was in held:
+                if repr(old) != was:
+                    ctx.fail("C04:%s.earlier_result_changed" % f.name, "%s: a result returned by an earlier decode changed when another response was decoded" % f.name, wit)
+                    del held[:]
+                    break
+            ctx.count("earlier_results_rechecked", len(held))
+            held.append((res, repr(res)))
+            if len(held) > 3:
+                held.pop(0)
             # through the facade
             call = f.facade(v, len(buf))
             if call is None:
